@@ -218,6 +218,71 @@ var twoTo53 = new(big.Int).Lsh(big.NewInt(1), 53)
 
 type luaPrinter struct {
 	unsupported []string // reasons, for the header comment
+	// alpha-normalisation: the k-th local declared by the script (textual order) is printed under the
+	// k-th name of `canon` (lua_names.go: the names the locals had when the proofs were written), so
+	// that renaming a Lua local in the Go sources does not change the generated term.  Scoping is
+	// resolved here; if the canonical names would capture (two visible locals under one name, or a
+	// local under the name of a global the script uses) the script is printed with its own names.
+	canon    []string
+	scopes   []map[string]string // source name -> printed name
+	declared []string            // source names in declaration order (for -dump-lua-names)
+	printed  []string
+	capture  bool
+}
+
+var luaGlobals = map[string]bool{"KEYS": true, "ARGV": true, "redis": true, "tonumber": true, "tostring": true, "unpack": true,
+	"ipairs": true, "pairs": true, "string": true, "math": true, "table": true, "type": true, "next": true, "select": true}
+
+func (p *luaPrinter) push() { p.scopes = append(p.scopes, map[string]string{}) }
+func (p *luaPrinter) pop()  { p.scopes = p.scopes[:len(p.scopes)-1] }
+
+// bind declares a local and returns the name it is printed under
+func (p *luaPrinter) bind(src string) string {
+	name := src
+	if k := len(p.declared); k < len(p.canon) {
+		name = p.canon[k]
+	}
+	p.declared = append(p.declared, src)
+	p.printed = append(p.printed, name)
+	if luaGlobals[name] {
+		p.capture = true
+	}
+	for _, sc := range p.scopes {
+		for other, pn := range sc {
+			if pn == name && other != src {
+				p.capture = true
+			}
+		}
+	}
+	if len(p.scopes) == 0 {
+		p.push()
+	}
+	p.scopes[len(p.scopes)-1][src] = name
+	return name
+}
+
+func (p *luaPrinter) bindAll(names []string) []string {
+	out := make([]string, len(names))
+	for i, n := range names {
+		out[i] = p.bind(n)
+	}
+	return out
+}
+
+// use resolves an identifier: a visible local is printed under its bound name, anything else is a global
+func (p *luaPrinter) use(src string) string {
+	for i := len(p.scopes) - 1; i >= 0; i-- {
+		if n, ok := p.scopes[i][src]; ok {
+			return n
+		}
+	}
+	return src
+}
+
+func (p *luaPrinter) scopedBlock(stmts []luaast.Stmt, indent string) string {
+	p.push()
+	defer p.pop()
+	return p.block(stmts, indent)
 }
 
 func (p *luaPrinter) unsupExpr(why string) string {
@@ -290,7 +355,7 @@ func (p *luaPrinter) expr(e luaast.Expr) string {
 	case *luaast.StringExpr:
 		return ".str " + leanStr(x.Value)
 	case *luaast.IdentExpr:
-		return ".var " + leanStr(x.Value)
+		return ".var " + leanStr(p.use(x.Value))
 	case *luaast.AttrGetExpr:
 		return ".index " + paren(p.expr(x.Object)) + " " + paren(p.expr(x.Key))
 	case *luaast.TableExpr:
@@ -363,7 +428,8 @@ func (p *luaPrinter) block(stmts []luaast.Stmt, indent string) string {
 func (p *luaPrinter) stmt(s luaast.Stmt, indent string) string {
 	switch x := s.(type) {
 	case *luaast.LocalAssignStmt:
-		return ".localDecl " + leanStrList(x.Names) + " " + p.exprList(x.Exprs)
+		exprs := p.exprList(x.Exprs) // `local x = x` reads the OUTER x: expressions first
+		return ".localDecl " + leanStrList(p.bindAll(x.Names)) + " " + exprs
 	case *luaast.AssignStmt:
 		if len(x.Lhs) != 1 || len(x.Rhs) != 1 {
 			return p.unsupStmt("multiple assignment")
@@ -384,18 +450,25 @@ func (p *luaPrinter) stmt(s luaast.Stmt, indent string) string {
 		}
 		return ".callStmt " + paren(ref) + " " + args
 	case *luaast.IfStmt:
-		return ".ifThen " + paren(p.expr(x.Condition)) + " " + p.block(x.Then, indent) + " " + p.block(x.Else, indent)
+		cond := paren(p.expr(x.Condition))
+		return ".ifThen " + cond + " " + p.scopedBlock(x.Then, indent) + " " + p.scopedBlock(x.Else, indent)
 	case *luaast.NumberForStmt:
 		step := "none"
 		if x.Step != nil {
 			step = paren("some " + paren(p.expr(x.Step)))
 		}
-		return ".numFor " + leanStr(x.Name) + " " + paren(p.expr(x.Init)) + " " + paren(p.expr(x.Limit)) + " " + step + " " + p.block(x.Stmts, indent)
+		init, limit := paren(p.expr(x.Init)), paren(p.expr(x.Limit))
+		p.push()
+		defer p.pop()
+		return ".numFor " + leanStr(p.bind(x.Name)) + " " + init + " " + limit + " " + step + " " + p.block(x.Stmts, indent)
 	case *luaast.GenericForStmt:
 		if len(x.Exprs) == 1 && len(x.Names) >= 1 {
 			if c, ok := x.Exprs[0].(*luaast.FuncCallExpr); ok && c.Receiver == nil && len(c.Args) == 1 {
 				if id, ok := c.Func.(*luaast.IdentExpr); ok && id.Value == "ipairs" {
-					return ".ipairsFor " + leanStrList(x.Names) + " " + paren(p.expr(c.Args[0])) + " " + p.block(x.Stmts, indent)
+					arg := paren(p.expr(c.Args[0]))
+					p.push()
+					defer p.pop()
+					return ".ipairsFor " + leanStrList(p.bindAll(x.Names)) + " " + arg + " " + p.block(x.Stmts, indent)
 				}
 			}
 		}
@@ -419,6 +492,9 @@ func (p *luaPrinter) stmt(s luaast.Stmt, indent string) string {
 	}
 	return p.unsupStmt(fmt.Sprintf("statement %T", s))
 }
+
+// luaDeclared: source names of the locals of every script, in declaration order (-dump-lua-names)
+var luaDeclared = map[string][]string{}
 
 func genLuaScripts(repo string) (string, error) {
 	scripts, err := collectLuaScripts(repo)
@@ -446,7 +522,14 @@ func genLuaScripts(repo string) (string, error) {
 				msg := strings.Join(strings.Fields(err.Error()), " ")
 				body = "[\n  " + p.unsupStmt("lua parse error: "+msg) + "\n]"
 			} else {
-				body = p.block(chunk, "")
+				p.canon = luaCanonNames[sc.lean]
+				body = p.scopedBlock(chunk, "")
+				if p.capture {
+					// the canonical names do not fit this script any more: print it as written
+					p = &luaPrinter{}
+					body = p.scopedBlock(chunk, "")
+				}
+				luaDeclared[sc.lean] = p.declared
 			}
 		}
 		fmt.Fprintf(&sb, "/-- %s, %s, variable `%s`", sc.file, orDash(sc.fn), orDash(sc.varName))
